@@ -6,7 +6,7 @@ import asyncio
 import logging
 from typing import Any
 
-from aiomysensors.exceptions import AIOMySensorsError, TransportFailedError
+from aiomysensors.exceptions import AIOMySensorsError, TransportError, TransportFailedError
 from aiomysensors.gateway import Config, Gateway
 from aiomysensors.model.message import Message
 from aiomysensors.model.node import Child, Node
@@ -31,6 +31,8 @@ class RecordingTransport(Transport):
         self.attempts: list[tuple[int, str, bool]] = []  # every attempt (step, line, failed)
         self.fail_attempts: set[int] = set()  # global attempt indices (0-based) that fail
         self.fail_pred = None  # callable(line, n_matching_so_far) -> bool
+        self.fail_exc = TransportFailedError  # class raised for an injected fault
+        self.fail_after_record = False  # the bytes reach the wire, THEN the write raises (e.g. drain() failing)
         self.on_write = None  # callable(line) run at the moment of a successful write
         self.connected = 0
         self.disconnected = 0
@@ -52,8 +54,12 @@ class RecordingTransport(Transport):
         if not failed and self.fail_pred is not None:
             failed = bool(self.fail_pred(decoded_message))
         self.attempts.append((self.step, decoded_message, failed))
+        if failed and self.fail_after_record:
+            self.wire = getattr(self, "wire", []) + [decoded_message]
+            raise self.fail_exc("injected write fault after the data was sent")
         if failed:
-            raise TransportFailedError("injected write fault")
+            raise self.fail_exc("injected write fault")
+        self.wire = getattr(self, "wire", []) + [decoded_message]
         if self.on_write is not None:
             self.on_write(decoded_message)
         self.writes.append((self.step, decoded_message))
@@ -62,9 +68,44 @@ class RecordingTransport(Transport):
         return [line for stp, line in self.writes if stp == step]
 
 
-def run(coro: Any) -> Any:
-    """Run a coroutine on a fresh event loop."""
-    return asyncio.run(coro)
+class _Swallow(logging.Handler):
+    def emit(self, record: logging.LogRecord) -> None:
+        try:
+            record.getMessage()  # force %-formatting as a real handler would
+        except Exception:  # noqa: BLE001
+            pass
+
+
+class debug_logging:
+    """Run a block with the library's loggers at DEBUG (what `aiomysensors --debug` does), output swallowed."""
+
+    def __init__(self, enabled: bool) -> None:
+        self.enabled = enabled
+        self.saved: list = []
+
+    def __enter__(self):
+        if self.enabled:
+            self.handler = _Swallow()
+            for name in ("aiomysensors", "aiomysensors.model", "paho.mqtt.client"):
+                logger = logging.getLogger(name)
+                self.saved.append((logger, logger.level, logger.propagate))
+                logger.setLevel(logging.DEBUG)
+                logger.propagate = False
+                logger.addHandler(self.handler)
+        return self
+
+    def __exit__(self, *exc) -> None:
+        for logger, level, propagate in self.saved:
+            logger.removeHandler(self.handler)
+            logger.setLevel(level)
+            logger.propagate = propagate
+        self.saved = []
+
+
+def run(coro: Any, *, debug_log: bool = False) -> Any:
+    """Run a coroutine on a fresh event loop (optionally with the library logging at DEBUG)."""
+    with debug_logging(debug_log):
+        return asyncio.run(coro)
 
 
 def make_gateway(version: str | None, *, metric: bool = True, transport: Transport | None = None) -> tuple[Gateway, Any]:
@@ -268,11 +309,16 @@ class MemTransport(asyncio.Transport):
     def close(self) -> None:
         self.closed_count += 1
         if self.close_exc is not None:
-            raise self.close_exc
+            exc, self.close_exc = self.close_exc, None  # injected once (the garbage collector closes again later)
+            self.closing = True
+            raise exc
         if not self.closing:
             self.closing = True
             if self.protocol is not None:
-                asyncio.get_running_loop().call_soon(self.protocol.connection_lost, self.lost_exc)
+                try:
+                    asyncio.get_running_loop().call_soon(self.protocol.connection_lost, self.lost_exc)
+                except RuntimeError:
+                    pass  # closed by the garbage collector after the loop is gone
 
     def abort(self) -> None:
         self.close()
